@@ -215,6 +215,10 @@ impl<'a, const BITS: usize, const LIMBS: usize> FromSql<'a> for Uint<BITS, LIMBS
                 }
                 let len: usize = i32::from_be_bytes(raw[..4].try_into()?).try_into()?;
                 let raw = &raw[4..];
+                if raw.len() != (len + 7) / 8 {
+                    // The payload must hold exactly `len` bits.
+                    return Err(Box::new(FromSqlError::ParseError(ty.clone())));
+                }
 
                 // Shift padding to the other end
                 let padding = 8 - rem_up(len, 8);
